@@ -22,7 +22,8 @@ RULE = ("kind q: histories of add (with re-adds)/remove/pop/peek/len over 2..40 
         "HeapPriorityQueue and SortedPriorityQueue with BarrelList._size_factor in {0,1,2,3,1520}; kind b: BarrelList "
         "insert/pop/getitem/len/list at indices around sub-list borders; kind big: 23 000..40 000 tasks added (rank patterns "
         "descending / ascending / modular, optional re-adds and removals) to both classes at the REAL _size_factor=1520 and "
-        "drained, judged by Check.C10_Check.big_ok. Non-trivial (q) = a live task was re-added or "
+        "drained, judged by Spec.big_ok; churn histories (waves of growth and bursts of scattered removals / "
+        "re-prioritisations leaving hundreds of tombstones around a handful of live tasks, then a drain). Non-trivial (q) = a live task was re-added or "
         "removed, a pop returned a task while another live task had the same priority, and the sorted back end held "
         ">= 2 sub-lists at some point; (b) = >= 2 sub-lists and a pop and an insert at the end. "
         "Distinct = distinct canonical case hash")
@@ -134,6 +135,53 @@ def _gen_large(rng, tier):
     return {"kind": "q", "factor": factor, "ops": ops}
 
 
+def _gen_churn(rng, tier):
+    """removal-heavy long histories: waves of (grow, burst of scattered removals / re-prioritisations) so that
+    tombstones outnumber the live entries by tens to hundreds (state-size dependent maintenance such as
+    compaction thresholds is reached), then late adds and a full drain."""
+    long = tier != "quick"
+    factor = rng.choice([2, 4, 8, 16, 1520])
+    nprio = rng.choice([1, 3, 10, 50])
+    waves = rng.choice([1, 1, 2] if not long else [1, 2, 3, 4])
+    ops, live, nxt = [], [], 0
+
+    def rank():
+        return rng.randrange(nprio) - 3
+    for w in range(waves):
+        grow = rng.randint(70, 220) if not long else rng.randint(100, 600)
+        for _ in range(grow):
+            ops.append(["add", nxt, rank(), rng.randrange(6)])
+            live.append(nxt)
+            nxt += 1
+            if rng.random() < 0.03:
+                ops.append(["peek", 1, 0])
+        # (tasks popped between waves stay in [live]: removing them later raises KeyError, re-adding them is a fresh add)
+        frac = rng.choice([0.6, 0.8, 0.9, 0.97, 1.0])
+        rng.shuffle(live)
+        burst, live = live[:int(len(live) * frac)], live[int(len(live) * frac):]
+        for t in burst:
+            r = rng.random()
+            if r < 0.2:
+                ops.append(["add", t, rank(), rng.randrange(6)])     # re-prioritise: tombstone + fresh entry
+                live.append(t)
+            else:
+                ops.append(["remove", t])
+            if rng.random() < 0.02:
+                ops.append(["peek", 2, 1])
+            if rng.random() < 0.01:
+                ops.append(["len"])
+        for _ in range(rng.randint(0, 6)):
+            ops.append(["add", nxt, rank(), rng.randrange(6)])
+            live.append(nxt)
+            nxt += 1
+        if w + 1 < waves:
+            for _ in range(rng.randint(0, 5)):
+                ops.append(["pop", None, 0])
+    ops.append(["len"])
+    ops += [["pop", 2, 1] for _ in range(len(live) + 2)] + [["len"]]
+    return {"kind": "q", "factor": factor, "ops": ops}
+
+
 def _gen_big(rng, tier, i):
     n = rng.randint(23000, 26000) if tier == "quick" else rng.randint(23000, 40000)
 
@@ -142,8 +190,10 @@ def _gen_big(rng, tier, i):
         if k == "mod":
             return ["mod", rng.choice([1, 2, 7, 50, 1000, 100003]), rng.choice([1, 3, 7919])]
         return [k, rng.choice([1, 1, 2, 10, 1000, 50000])]
+    # inv: remove everything EXCEPT every r-th task (tombstones outnumber the live entries by thousands)
     return {"kind": "big", "n": n, "f": pat(), "q": rng.choice([0, 0, 3, 10, 1000]), "g": pat(),
-            "r": rng.choice([0, 0, 3, 7, 500])}
+            "r": rng.choice([0, 0, 3, 7, 500]) if i != 1 else rng.choice([3, 7, 50, 500]),
+            "inv": (rng.random() < 0.3) if i != 1 else True}
 
 
 def _gen_b(rng, tier):
@@ -183,14 +233,17 @@ def _gen_b(rng, tier):
 
 
 def generate(rng, tier, n):
-    nbig = 0 if n < 1000 else (1 if tier == "quick" else 12)
+    nbig = 0 if n < 1000 else (2 if tier == "quick" else 12)
     nlarge = n // 400 if tier == "quick" else n // 200
+    nchurn = n // 160 if tier == "quick" else n // 250
     # the expensive cases first, so that their coqc jobs overlap with all the others
     for i in range(nbig):
         yield _gen_big(rng, tier, i)
     for i in range(nlarge):
         yield _gen_large(rng, tier)
-    for i in range(n - nbig - nlarge):
+    for i in range(nchurn):
+        yield _gen_churn(rng, tier)
+    for i in range(n - nbig - nlarge - nchurn):
         yield _gen_q(rng, tier) if rng.random() < 0.78 else _gen_b(rng, tier)
 
 
@@ -289,7 +342,7 @@ def _run_big(cls, case):
         if q_ and i % q_ == 1:         # Spec.readded
             q.add(big_task(i), prio_obj(big_rank(case["g"], i), i % 5))
     for i in range(n):
-        if r_ and i % r_ == 2:         # Spec.removed
+        if r_ and ((i % r_ == 2) != bool(case.get("inv"))):         # Spec.removed
             q.remove(big_task(i))
     maxsub = 1
     try:
@@ -417,7 +470,8 @@ def _bigobs(o):
 
 def to_coq(case, obs):
     if case["kind"] == "big":
-        par = "(mkBig %s %s %s %s %s)" % (cN(case["n"]), _pat(case["f"]), cN(case["q"]), _pat(case["g"]), cN(case["r"]))
+        par = "(mkBig %s %s %s %s %s %s)" % (cN(case["n"]), _pat(case["f"]), cN(case["q"]), _pat(case["g"]), cN(case["r"]),
+                                               "true" if case.get("inv") else "false")
         if obs["heap"] == obs["sorted"]:
             return "BigSame %s %s" % (par, _bigobs(obs["heap"]))
         return "BigDiff %s %s %s" % (par, _bigobs(obs["heap"]), _bigobs(obs["sorted"]))
@@ -456,6 +510,23 @@ def corrupt(case, obs):
             o.append("IndexError")
             return bad
     return None
+
+
+def _tombstones(case, obs):
+    """largest number of tombstones created while at most that many/3 tasks were live - statistics only:
+    max over time of (tombstones created so far - 2 * live)."""
+    live, made, worst = set(), 0, 0
+    for op, o in zip(case["ops"], obs["heap"]):
+        if op[0] == "add":
+            made += op[1] in live
+            live.add(op[1])
+        elif op[0] == "remove":
+            made += op[1] in live
+            live.discard(op[1])
+        elif op[0] == "pop" and o[0] == "task":
+            live.discard(o[1])
+        worst = max(worst, made - 2 * len(live))
+    return worst
 
 
 def _q_depth(case, obs):
@@ -501,7 +572,8 @@ def distribution(d, case, obs):
     if case["kind"] == "big":
         bump("size_factor", "1520 (class default)")
         bump("max_sublists", "big:%d" % obs["maxsub"])
-        bump("big_patterns", "%s/%s q=%d r=%d" % (case["f"][0], case["g"][0], case["q"], case["r"]))
+        bump("big_patterns", "%s/%s q=%d r=%d%s" % (case["f"][0], case["g"][0], case["q"], case["r"],
+                                                   " keep-only" if case.get("inv") else ""))
         d["max_queue_len_big"] = max(d.get("max_queue_len_big", 0), case["n"])
         bump("depth", "classes_differ", int(obs["heap"] != obs["sorted"]))
         return
@@ -521,13 +593,16 @@ def distribution(d, case, obs):
         bump("depth", "tie_broken", int(tie))
         d["max_queue_len"] = max(d.get("max_queue_len", 0), max([o[1] for o in obs["heap"] if o[0] == "len"] or [0]))
         bump("depth", "classes_differ", int(obs["heap"] != obs["sorted"]))
+        t = _tombstones(case, obs)
+        bump("tombstones_minus_2x_live", "<=0" if t <= 0 else "1-15" if t < 16 else "16-63" if t < 64 else
+             "64-255" if t < 256 else "256-1023" if t < 1024 else "1024+")
     else:
         d["max_barrel_len"] = max(d.get("max_barrel_len", 0), max([o[1] for o in obs["obs"] if o[0] == "len"] or [0]))
 
 
 def sample(case, obs):
     if case["kind"] == "big":
-        return {"kind": "big", "params": {k: case[k] for k in ("n", "f", "q", "g", "r")}, "len": obs["sorted"]["len"],
+        return {"kind": "big", "params": {k: case.get(k) for k in ("n", "f", "q", "g", "r", "inv")}, "len": obs["sorted"]["len"],
                 "first_pops_heap": obs["heap"]["pops"][:12], "first_pops_sorted": obs["sorted"]["pops"][:12],
                 "max_sublists": obs["maxsub"]}
     if case["kind"] == "q":
@@ -541,13 +616,14 @@ def shrink(case):
     """smaller candidates: big cases lose their re-adds/removals/pattern and some length; others lose chunks of ops"""
     import json
     if case["kind"] == "big":
-        for k, v in (("q", 0), ("r", 0), ("g", ["desc", 1]), ("f", ["desc", 1])):
-            if case[k] != v:
+        for k, v in (("q", 0), ("r", 0), ("inv", False), ("g", ["desc", 1]), ("f", ["desc", 1])):
+            if case.get(k, v) != v:
                 c = dict(case)
                 c[k] = v
                 yield c
-        for n in (case["n"] * 9 // 10, case["n"] - 500, case["n"] - 50):
-            if n > 0:
+        # much shorter histories are cheap to try (small terms); near-full-size ones are not worth 10 s each
+        for n in (40, 400, 4000):
+            if n < case["n"]:
                 c = dict(case)
                 c["n"] = n
                 yield c
@@ -556,16 +632,16 @@ def shrink(case):
     n = len(ops)
     if n <= 1:
         return
-    chunk, seen = max(1, n // 2), set()
-    while chunk >= 1:
-        for s in range(0, n, chunk):
-            cand = ops[:s] + ops[s + chunk:]
+    # few candidates per round (each round costs one implementation run + one coqc): halves, quarters, eighths,
+    # sixteenths; single operations only once the history is short
+    seen = set()
+    for parts in (2, 4, 8, 16) if n > 16 else (2, 4, n):
+        chunk = max(1, n // parts)
+        for s_ in range(0, n, chunk):
+            cand = ops[:s_] + ops[s_ + chunk:]
             key = json.dumps(cand)
             if cand and key not in seen:
                 seen.add(key)
                 c = dict(case)
                 c["ops"] = cand
                 yield c
-        chunk //= 2
-        if len(seen) > 60:
-            return
